@@ -253,7 +253,6 @@ theorem winv_pass_nondata (sent : List PEv) (cursor b : Nat) (ip : Bool) (k : Ke
 
 structure SInv (s : St) : Prop where
   cur : s.cursor ≤ s.sent.length
-  lag : s.lagged = 0
   data : ∀ e ∈ s.sent, IsDataP e
   ws : ∀ w ∈ s.watchers, WInv s.sent s.cursor s.bufSize w
   unreg : ∀ id ∈ s.unregQ, ∀ w ∈ s.watchers, w.id = id → w.closed = true
@@ -315,7 +314,7 @@ theorem eventsOf_go_data (first : Nat) (oks : List Bool) (prevs : Option (List (
 
 theorem sinv_apply (s : St) (c : List Cmd) (h : SInv s) : SInv (applyChunk s c) := by
   unfold applyChunk
-  refine ⟨?_, h.lag, ?_, ?_, h.unreg, h.fresh, h.ids⟩
+  refine ⟨?_, ?_, ?_, h.unreg, h.fresh, h.ids⟩
   · show s.cursor ≤ (s.sent ++ _).length
     have := h.cur; simp; omega
   · intro e he
@@ -329,11 +328,11 @@ theorem sinv_apply (s : St) (c : List Cmd) (h : SInv s) : SInv (applyChunk s c) 
 theorem sinv_register (s : St) (k : Key) (ip pk : Bool) (h : SInv s) : SInv (register s k ip pk) := by
   unfold register
   split
-  · exact ⟨h.cur, h.lag, h.data, h.ws, h.unreg, h.fresh, h.ids⟩
+  · exact ⟨h.cur, h.data, h.ws, h.unreg, h.fresh, h.ids⟩
   · rename_i hv
     split
-    · exact ⟨h.cur, h.lag, h.data, h.ws, h.unreg, h.fresh, h.ids⟩
-    · refine ⟨h.cur, h.lag, h.data, ?_, ?_, fun id hid => Nat.lt_succ_of_lt (h.fresh id hid), ?_⟩
+    · exact ⟨h.cur, h.data, h.ws, h.unreg, h.fresh, h.ids⟩
+    · refine ⟨h.cur, h.data, ?_, ?_, fun id hid => Nat.lt_succ_of_lt (h.fresh id hid), ?_⟩
       · intro w hw
         simp only [List.mem_append, List.mem_singleton] at hw
         rcases hw with hw | hw
@@ -380,7 +379,7 @@ theorem sinv_unregisterId (s : St) (id : Nat) (q : List Nat) (h : SInv s) (hq : 
   · have hk := map_keeps s.watchers (fun w => if w.id == id then { w with registered := false } else w) q s.nextId
       (fun w => by split <;> rfl) (fun w hc => by split <;> exact hc)
       (fun x hx => h.unreg x (hsub x hx)) h.ids
-    refine ⟨h.cur, h.lag, h.data, ?_, hk.1, fun x hx => h.fresh x (hsub x hx), hk.2⟩
+    refine ⟨h.cur, h.data, ?_, hk.1, fun x hx => h.fresh x (hsub x hx), hk.2⟩
     intro w hw
     simp only [List.mem_map] at hw
     obtain ⟨w0, hw0, rfl⟩ := hw
@@ -389,7 +388,7 @@ theorem sinv_unregisterId (s : St) (id : Nat) (q : List Nat) (h : SInv s) (hq : 
       have hcl := h.unreg id (by rw [hq]; simp) w0 hw0 (by simpa using hid)
       exact winv_unregister _ _ _ _ (h.ws w0 hw0) hcl
     · exact h.ws w0 hw0
-  · exact ⟨h.cur, h.lag, h.data, h.ws, fun x hx => h.unreg x (hsub x hx), fun x hx => h.fresh x (hsub x hx), h.ids⟩
+  · exact ⟨h.cur, h.data, h.ws, fun x hx => h.unreg x (hsub x hx), fun x hx => h.fresh x (hsub x hx), h.ids⟩
 
 theorem sinv_dispatchToMap_progress (s : St) (ip : Bool) (k : Key) (e : PEv) (h : SInv s)
     (he : e.typ = EvType.progress) : SInv (dispatchToMap s ip k e) := by
@@ -397,7 +396,7 @@ theorem sinv_dispatchToMap_progress (s : St) (ip : Bool) (k : Key) (e : PEv) (h 
   have hk := map_keeps s.watchers (pass s.bufSize ip k e) s.unregQ s.nextId
     (fun w => (pass_fields _ _ _ _ w).1)
     (fun w hc => by rw [(pass_fields _ _ _ _ w).2.2.2.2.2.1]; exact hc) h.unreg h.ids
-  refine ⟨h.cur, h.lag, h.data, ?_, hk.1, h.fresh, hk.2⟩
+  refine ⟨h.cur, h.data, ?_, hk.1, h.fresh, hk.2⟩
   intro w hw
   simp only [List.mem_map] at hw
   obtain ⟨w0, hw0, rfl⟩ := hw
@@ -413,17 +412,88 @@ theorem sinv_broadcastProgress (s : St) (h : SInv s) : SInv (broadcastProgress s
   unfold broadcastProgress
   exact sinv_foldl_progress true _ _ _ (sinv_foldl_progress false _ _ _ h rfl) rfl
 
+theorem seen_mono (sent : List PEv) (c c' : Nat) (w : Watcher) (h1 : c ≤ c') (h2 : w.regPos ≤ c) :
+    seen sent c w <+: seen sent c' w := by
+  unfold seen
+  have e : sent.take c = (sent.take c').take c := by rw [List.take_take]; congr 1; omega
+  rw [e]
+  obtain ⟨t, ht⟩ := List.take_prefix c (sent.take c')
+  by_cases hl : w.regPos ≤ ((sent.take c').take c).length
+  · refine ⟨t, ?_⟩
+    rw [← List.drop_append_of_le_length hl, ht]
+  · have : ((sent.take c').take c).drop w.regPos = [] := by
+      apply List.drop_eq_nil_of_le; omega
+    rw [this]; exact List.nil_prefix
+
+theorem expW_mono (w : Watcher) (a b : List PEv) (h : a <+: b) : expW w a <+: expW w b := by
+  unfold expW expected
+  exact (h.filter _).map _
+
+/-- The dispatcher lagged: cursor jumps to `c'`, the watcher is cancelled (`cancelOne`). -/
+theorem winv_cancel (sent : List PEv) (c c' b : Nat) (w : Watcher) (h : WInv sent c b w) (hc : c ≤ c') :
+    WInv sent c' b (cancelOne w) := by
+  have hpre : dataOf w.hist <+: expW w (seen sent c' w) :=
+    h.pre.trans (expW_mono w _ _ (seen_mono sent c c' w hc h.pos))
+  have hpos : w.regPos ≤ c' := by have := h.pos; omega
+  unfold cancelOne
+  cases hreg : w.registered with
+  | false =>
+    simp only [Bool.false_eq_true, if_false]
+    exact ⟨h.valid, hpos, hpre, (fun hr => by rw [hreg] at hr; cases hr), h.dead, h.cancelLast,
+      (fun hr => by rw [hreg] at hr; cases hr), h.got, h.chan⟩
+  | true =>
+    obtain ⟨_, hnc⟩ := h.live hreg
+    simp only [if_true]
+    cases hcl : w.closed with
+    | true =>
+      simp only [if_true]
+      exact ⟨h.valid, hpos, hpre, (fun hr => nomatch hr), fun _ => Or.inl (by first | exact hcl | rfl), h.cancelLast,
+        (fun hr => nomatch hr), h.got, (fun hc => nomatch hc)⟩
+    | false =>
+      simp only [Bool.false_eq_true, if_false]
+      refine ⟨h.valid, hpos, ?_, (fun hr => nomatch hr), fun _ => Or.inr (by simp [cancelEv]), ?_,
+        (fun hr => nomatch hr), ?_, ?_⟩
+      · show dataOf (w.hist ++ [cancelEv w.key]) <+: _
+        rw [dataOf_append_single]
+        have : isData (cancelEv w.key) = false := rfl
+        simp only [this, Bool.false_eq_true, if_false, List.append_nil]
+        exact hpre
+      · show ∀ x ∈ (w.hist ++ [cancelEv w.key]).dropLast, x.typ ≠ EvType.canceled
+        rw [List.dropLast_concat]; exact hnc
+      · show w.got <+: w.hist ++ [cancelEv w.key]
+        exact List.IsPrefix.trans h.got (List.prefix_append _ _)
+      · intro _
+        show w.got ++ (w.chan ++ [cancelEv w.key]) = w.hist ++ [cancelEv w.key]
+        rw [← List.append_assoc, h.chan hcl]
+
+theorem cancelOne_id_closed (w : Watcher) : (cancelOne w).id = w.id ∧ (cancelOne w).closed = w.closed := by
+  unfold cancelOne
+  split
+  · split <;> exact ⟨rfl, rfl⟩
+  · exact ⟨rfl, rfl⟩
+
+theorem sinv_cancelAll (s : St) (c' : Nat) (n : Nat) (h : SInv s) (h1 : s.cursor ≤ c') (h2 : c' ≤ s.sent.length) :
+    SInv (cancelAll { s with cursor := c', lagged := n }) := by
+  have hk := map_keeps s.watchers cancelOne s.unregQ s.nextId
+    (fun w => (cancelOne_id_closed w).1)
+    (fun w hc => by rw [(cancelOne_id_closed w).2]; exact hc) h.unreg h.ids
+  refine ⟨h2, h.data, ?_, hk.1, h.fresh, hk.2⟩
+  intro w hw
+  simp only [cancelAll, List.mem_map] at hw
+  obtain ⟨w0, hw0, rfl⟩ := hw
+  exact winv_cancel _ _ _ _ _ (h.ws w0 hw0) h1
+
 theorem sinv_dispatchEvent (s : St) (e : PEv) (h : SInv s) (he : s.sent[s.cursor]? = some e) :
-    SInv (dispatchEvent { s with cursor := s.cursor + 1 } e) := by
-  obtain ⟨hw, hb, hs, hc, hl, hu, hn⟩ := dispatchEvent_eq { s with cursor := s.cursor + 1 } e
+    SInv (dispatchEvent { s with cursor := s.cursor + 1, progressRev := max s.progressRev e.rev } e) := by
+  obtain ⟨hw, hb, hs, hc, hl, hu, hn⟩ :=
+    dispatchEvent_eq { s with cursor := s.cursor + 1, progressRev := max s.progressRev e.rev } e
   have hlt : s.cursor < s.sent.length := (List.getElem?_eq_some_iff.mp he).1
   have hd : IsDataP e := h.data e (List.mem_of_getElem? he)
   have hk := map_keeps s.watchers (perW s.bufSize e) s.unregQ s.nextId
     (fun w => (perW_id_closed _ _ w).1)
     (fun w hc => by rw [(perW_id_closed _ _ w).2]; exact hc) h.unreg h.ids
-  refine ⟨?_, ?_, ?_, ?_, ?_, ?_, ?_⟩
+  refine ⟨?_, ?_, ?_, ?_, ?_, ?_⟩
   · rw [hc, hs]; show s.cursor + 1 ≤ s.sent.length; omega
-  · rw [hl]; exact h.lag
   · rw [hs]; exact h.data
   · rw [hw, hb, hs, hc]
     intro w hw'
@@ -436,7 +506,7 @@ theorem sinv_dispatchEvent (s : St) (e : PEv) (h : SInv s) (he : s.sent[s.cursor
   · rw [hu, hn]; exact h.fresh
   · rw [hw, hn]; exact hk.2
 
-theorem sinv_dstep (s s' : St) (h : SInv s) (hs : dstep s = some s') (hl : s'.lagged = 0) : SInv s' := by
+theorem sinv_dstep (s s' : St) (h : SInv s) (hs : dstep s = some s') : SInv s' := by
   unfold dstep at hs
   split at hs
   · rename_i id q hq
@@ -444,11 +514,10 @@ theorem sinv_dstep (s s' : St) (h : SInv s) (hs : dstep s = some s') (hl : s'.la
     exact sinv_unregisterId s id q h hq
   · split at hs
     · split at hs
-      · -- Lagged: excluded by the hypothesis
+      · -- Lagged: every watcher is cancelled, the receiver continues at the oldest retained value
         cases hs
         rename_i hlt hgt
-        simp only at hl
-        omega
+        exact sinv_cancelAll s _ _ h (by omega) (by omega)
       · split at hs
         · rename_i e he
           cases hs
@@ -456,7 +525,7 @@ theorem sinv_dstep (s s' : St) (h : SInv s) (hs : dstep s = some s') (hl : s'.la
         · cases hs
     · split at hs
       · cases hs
-        exact sinv_broadcastProgress _ ⟨h.cur, h.lag, h.data, h.ws, h.unreg, h.fresh, h.ids⟩
+        exact sinv_broadcastProgress _ ⟨h.cur, h.data, h.ws, h.unreg, h.fresh, h.ids⟩
       · cases hs
 
 theorem winv_take (sent : List PEv) (c b n : Nat) (w : Watcher) (h : WInv sent c b w) (hc : w.closed = false) :
@@ -478,7 +547,7 @@ theorem winv_close (sent : List PEv) (c b : Nat) (w : Watcher) (h : WInv sent c 
   ⟨h.valid, h.pos, h.pre, h.live, fun _ => Or.inl rfl, h.cancelLast, (fun _ hc => nomatch hc), h.got,
     (fun hc => nomatch hc)⟩
 
-theorem sinv_step (s : St) (op : Op) (h : SInv s) (hl : (step s op).lagged = 0) : SInv (step s op) := by
+theorem sinv_step (s : St) (op : Op) (h : SInv s) : SInv (step s op) := by
   cases op with
   | apply c => exact sinv_apply s c h
   | reg k p v => exact sinv_register s k p v h
@@ -486,16 +555,13 @@ theorem sinv_step (s : St) (op : Op) (h : SInv s) (hl : (step s op).lagged = 0) 
     show SInv ((dstep s).getD s)
     cases hd : dstep s with
     | none => exact h
-    | some s' =>
-      have : (step s Op.dstep) = s' := by show (dstep s).getD s = s'; rw [hd]; rfl
-      rw [this] at hl
-      exact sinv_dstep s s' h hd hl
-  | tick => exact ⟨h.cur, h.lag, h.data, h.ws, h.unreg, h.fresh, h.ids⟩
+    | some s' => exact sinv_dstep s s' h hd
+  | tick => exact ⟨h.cur, h.data, h.ws, h.unreg, h.fresh, h.ids⟩
   | take i n =>
     have hk := map_keeps s.watchers
       (fun w => if w.id == i && !w.closed then { w with got := w.got ++ w.chan.take n, chan := w.chan.drop n } else w)
       s.unregQ s.nextId (fun w => by split <;> rfl) (fun w hc => by split <;> exact hc) h.unreg h.ids
-    refine ⟨h.cur, h.lag, h.data, ?_, hk.1, h.fresh, hk.2⟩
+    refine ⟨h.cur, h.data, ?_, hk.1, h.fresh, hk.2⟩
     intro w hw
     simp only [step, Watch.take, List.mem_map] at hw
     obtain ⟨w0, hw0, rfl⟩ := hw
@@ -512,7 +578,7 @@ theorem sinv_step (s : St) (op : Op) (h : SInv s) (hl : (step s op).lagged = 0) 
       have hk := map_keeps s.watchers
         (fun w => if w.id == i then { w with closed := true, chan := [] } else w)
         s.unregQ s.nextId (fun w => by split <;> rfl) (fun w hc => by split <;> first | rfl | exact hc) h.unreg h.ids
-      refine ⟨h.cur, h.lag, h.data, ?_, ?_, ?_, hk.2⟩
+      refine ⟨h.cur, h.data, ?_, ?_, ?_, hk.2⟩
       · intro w hw
         simp only [List.mem_map] at hw
         obtain ⟨w0, hw0, rfl⟩ := hw
@@ -544,7 +610,7 @@ theorem sinv_step (s : St) (op : Op) (h : SInv s) (hl : (step s op).lagged = 0) 
     have hk := map_keeps s.watchers
       (fun w => if w.id == i then { w with closed := true, chan := [] } else w)
       s.unregQ s.nextId (fun w => by split <;> rfl) (fun w hc => by split <;> first | rfl | exact hc) h.unreg h.ids
-    refine ⟨h.cur, h.lag, h.data, ?_, hk.1, h.fresh, hk.2⟩
+    refine ⟨h.cur, h.data, ?_, hk.1, h.fresh, hk.2⟩
     intro w hw
     simp only [step, dropReceiver, List.mem_map] at hw
     obtain ⟨w0, hw0, rfl⟩ := hw
@@ -552,66 +618,10 @@ theorem sinv_step (s : St) (op : Op) (h : SInv s) (hl : (step s op).lagged = 0) 
     · exact winv_close _ _ _ _ (h.ws w0 hw0)
     · exact h.ws w0 hw0
 
-/-! ### `lagged` never decreases, so `lagged = 0` at the end means the dispatcher never lagged -/
-
-theorem lagged_le_dstep (s s' : St) (h : dstep s = some s') : s.lagged ≤ s'.lagged := by
-  unfold dstep at h
-  split at h
-  · cases h
-    unfold unregisterId
-    split <;> exact Nat.le_refl _
-  · split at h
-    · split at h
-      · cases h; exact Nat.le_add_right _ _
-      · split at h
-        · cases h
-          rw [dispatchEvent_frame St.lagged (fun _ _ _ _ => rfl)]
-          exact Nat.le_refl _
-        · cases h
-    · split at h
-      · cases h
-        rw [broadcastProgress_frame St.lagged (fun _ _ _ _ => rfl)]
-        exact Nat.le_refl _
-      · cases h
-
-theorem lagged_le_step (s : St) (op : Op) : s.lagged ≤ (step s op).lagged := by
-  cases op with
-  | apply c => exact Nat.le_refl _
-  | reg k p v =>
-    show s.lagged ≤ (register s k p v).lagged
-    unfold register
-    split
-    · exact Nat.le_refl _
-    · split <;> exact Nat.le_refl _
-  | dstep =>
-    show s.lagged ≤ ((dstep s).getD s).lagged
-    cases hd : dstep s with
-    | none => exact Nat.le_refl _
-    | some s' => exact lagged_le_dstep s s' hd
-  | tick => exact Nat.le_refl _
-  | take i n => exact Nat.le_refl _
-  | dropHandle i =>
-    show s.lagged ≤ (dropHandle s i).lagged
-    unfold dropHandle
-    split <;> exact Nat.le_refl _
-  | dropReceiver i => exact Nat.le_refl _
-
-theorem lagged_le_exec (s : St) (ops : List Op) : s.lagged ≤ (exec s ops).lagged := by
-  induction ops generalizing s with
-  | nil => exact Nat.le_refl _
-  | cons op ops ih =>
-    show s.lagged ≤ (exec (step s op) ops).lagged
-    exact Nat.le_trans (lagged_le_step s op) (ih _)
-
-theorem sinv_exec (s : St) (ops : List Op) (h : SInv s) (hl : (exec s ops).lagged = 0) : SInv (exec s ops) := by
+theorem sinv_exec (s : St) (ops : List Op) (h : SInv s) : SInv (exec s ops) := by
   induction ops generalizing s with
   | nil => exact h
-  | cons op ops ih =>
-    have hl' : (exec (step s op) ops).lagged = 0 := hl
-    have h1 : (step s op).lagged = 0 := by
-      have := lagged_le_exec (step s op) ops
-      omega
-    exact ih (step s op) (sinv_step s op h h1) hl'
+  | cons op ops ih => exact ih (step s op) (sinv_step s op h)
 
 /-- Start: nothing broadcast, dispatcher at position 0, no watchers. -/
 structure Init (s : St) : Prop where
@@ -622,7 +632,7 @@ structure Init (s : St) : Prop where
   unregQ : s.unregQ = []
 
 theorem sinv_init (s : St) (h : Init s) : SInv s := by
-  refine ⟨?_, h.lagged, ?_, ?_, ?_, ?_, ?_⟩
+  refine ⟨?_, ?_, ?_, ?_, ?_, ?_⟩
   · rw [h.cursor]; exact Nat.zero_le _
   · rw [h.sent]; intro e he; cases he
   · rw [h.watchers]; intro w hw; cases hw
@@ -633,8 +643,8 @@ theorem sinv_init (s : St) (h : Init s) : SInv s := by
 /-! ### The property -/
 
 /-- What the watcher was sent (`hist`, of which the consumer has received the prefix `got`) relative to
-    `since` = the events matching it (exact key / '/'-terminated prefix) among those the dispatcher took
-    from the ring after the registration, in apply order:
+    `since` = the events matching it (exact key / '/'-terminated prefix) among those broadcast after the
+    dispatcher position at its registration and before the dispatcher's current position, in apply order:
     * the put/delete events sent are a prefix of `since` (in order, no duplicates, nothing foreign, nothing
       skipped in the middle);
     * a still-registered watcher has been sent all of `since` and no CANCELED;
@@ -653,19 +663,20 @@ instance (s : St) (w : Watcher) : Decidable (Delivered s w) := by unfold Deliver
 def DeliveredStatement : Prop :=
   ∀ (s0 : St) (ops : List Op), Init s0 → ∀ w ∈ (exec s0 ops).watchers, Delivered (exec s0 ops) w
 
-/-- **C24, partial (F22 excluded):** for every schedule of applies, registrations, dispatcher iterations,
-    heartbeat ticks, consumer reads and drops in which the dispatcher never receives `Lagged`
-    (broadcast ring never overflows), every watcher's stream is `Delivered`. -/
-theorem delivered_is_subsequence_prefix_partial (s0 : St) (ops : List Op) (h0 : Init s0)
-    (hnolag : (exec s0 ops).lagged = 0) :
+/-- **C24, full strength (after the fix of F22):** for every schedule of applies, registrations, dispatcher
+    iterations (including `Lagged`), heartbeat ticks, consumer reads and drops, every watcher's stream is
+    `Delivered`: gap-free since registration, or ended by CANCELED after which nothing follows. -/
+theorem delivered_is_subsequence_prefix (s0 : St) (ops : List Op) (h0 : Init s0) :
     ∀ w ∈ (exec s0 ops).watchers, Delivered (exec s0 ops) w := by
   intro w hw
-  have h := (sinv_exec s0 ops (sinv_init s0 h0) hnolag).ws w hw
+  have h := (sinv_exec s0 ops (sinv_init s0 h0)).ws w hw
   exact ⟨h.pre, h.live, h.dead, h.cancelLast, h.got⟩
+
+theorem delivered_statement : DeliveredStatement := delivered_is_subsequence_prefix
 
 /-- The same in the `take n` form: the data items sent are the first `n` of `since`; if `n` falls short,
     the watcher is gone and — unless the consumer left — its last item is CANCELED, after which nothing follows. -/
-theorem delivered_take_form (s0 : St) (ops : List Op) (h0 : Init s0) (hnolag : (exec s0 ops).lagged = 0) :
+theorem delivered_take_form (s0 : St) (ops : List Op) (h0 : Init s0) :
     ∀ w ∈ (exec s0 ops).watchers,
       let s := exec s0 ops
       let since := expW w (seen s.sent s.cursor w)
@@ -674,7 +685,7 @@ theorem delivered_take_form (s0 : St) (ops : List Op) (h0 : Init s0) (hnolag : (
           (w.closed = true ∨ (w.hist.getLast?).map (·.typ) = some EvType.canceled)) ∧
         (∀ e ∈ w.hist.dropLast, e.typ ≠ EvType.canceled) := by
   intro w hw s since
-  obtain ⟨hpre, hlive, hdead, hcl, _⟩ := delivered_is_subsequence_prefix_partial s0 ops h0 hnolag w hw
+  obtain ⟨hpre, hlive, hdead, hcl, _⟩ := delivered_is_subsequence_prefix s0 ops h0 w hw
   refine ⟨(dataOf w.hist).length, List.prefix_iff_eq_take.mp hpre, ?_, hcl⟩
   intro hn
   have hreg : w.registered = false := by
@@ -686,7 +697,23 @@ theorem delivered_take_form (s0 : St) (ops : List Op) (h0 : Init s0) (hnolag : (
       omega
   exact ⟨hreg, hdead hreg⟩
 
-/-! ### F22: the full statement is false as coded -/
+/-! ### F22 regression: the dispatcher before the fix (Lagged only logged) -/
+
+/-- `dstep` as it was before the fix of F22: on `Lagged(n)` only the receiver position moves. -/
+def dstepOld (s : St) : Option St :=
+  match s.unregQ with
+  | id :: q => some (unregisterId { s with unregQ := q } id)
+  | [] =>
+    if s.cursor < s.sent.length then
+      if s.sent.length - s.cursor > ringCap s then
+        some { s with cursor := s.sent.length - ringCap s,
+                      lagged := s.lagged + (s.sent.length - ringCap s - s.cursor) }
+      else dstep s
+    else dstep s
+
+def stepOld (s : St) : Op → St
+  | .dstep => (dstepOld s).getD s
+  | op => step s op
 
 def kA : Key := [47, 97]     -- "/a"
 
@@ -698,20 +725,19 @@ def f22Ops : List Op :=
    .apply [.put kA 1], .apply [.put kA 2], .apply [.put kA 3], .apply [.put kA 4], .apply [.put kA 5],
    .dstep, .dstep, .dstep]
 
-theorem f22_lags : (exec f22Start f22Ops).lagged = 3 := by decide
-
-/-- The watcher is sent only revisions 4 and 5, stays registered, and never sees a CANCELED. -/
-theorem f22_stream :
-    (exec f22Start f22Ops).watchers.map (fun w => (w.registered, w.hist.map (fun e => (e.typ, e.rev)))) =
-      [(true, [(EvType.put, 4), (EvType.put, 5)])] := by decide
-
-theorem delivered_statement_false : ¬ DeliveredStatement := by
-  intro h
-  have h1 := h f22Start f22Ops ⟨rfl, rfl, rfl, rfl, rfl⟩
-  revert h1
+/-- Before the fix: the watcher is sent only revisions 4 and 5, stays registered, never sees CANCELED. -/
+theorem f22_regression :
+    (f22Ops.foldl stepOld f22Start).watchers.map (fun w => (w.registered, w.hist.map (fun e => (e.typ, e.rev)))) =
+      [(true, [(EvType.put, 4), (EvType.put, 5)])] ∧
+    ¬ (∀ w ∈ (f22Ops.foldl stepOld f22Start).watchers, Delivered (f22Ops.foldl stepOld f22Start) w) := by
   decide
 
-/-! ### F23: Progress revisions -/
+/-- After the fix the same schedule ends the stream with CANCELED. -/
+theorem f22_fixed :
+    (exec f22Start f22Ops).watchers.map (fun w => (w.registered, w.hist.map (fun e => (e.typ, e.rev)))) =
+      [(false, [(EvType.canceled, 0)])] := by decide
+
+/-! ### Progress revisions (F23, fixed): never older than data already sent to the same watcher -/
 
 /-- "A Progress event carries the current applied index": at least it must not be older than a data
     revision the same watcher has already been sent. -/
@@ -721,69 +747,126 @@ instance (s : St) : Decidable (ProgressOkAll s) := by unfold ProgressOkAll; exac
 
 def ProgressStatement : Prop := ∀ (s0 : St) (ops : List Op), Init s0 → ProgressOkAll (exec s0 ops)
 
-def f23Start : St := { bufSize := 8, queueSize := 16, maxWatchers := 16, hbEnabled := true, progressRev := 0 }
+/-- Highest data revision in a stream, starting from `hi` (the accumulator of `progressOk`). -/
+def accAfter (hi : Nat) (l : List WEv) : Nat := l.foldl (fun h e => if isData e then max h e.rev else h) hi
 
-def f23Ops : List Op := [.reg kA false false, .apply [.put kA 7], .dstep, .tick, .dstep]
+theorem progressOk_push (hi : Nat) (l : List WEv) (x : WEv) (h : progressOk hi l = true)
+    (hx : x.typ = EvType.progress → accAfter hi l ≤ x.rev) : progressOk hi (l ++ [x]) = true := by
+  induction l generalizing hi with
+  | nil =>
+    simp only [List.nil_append]
+    unfold progressOk
+    by_cases hp : x.typ = EvType.progress
+    · have := hx hp
+      simp only [accAfter, List.foldl_nil] at this
+      simp [hp, progressOk, this]
+    · have hp' : (x.typ == EvType.progress) = false := by simpa using hp
+      simp only [hp', Bool.false_eq_true, if_false]
+      split <;> simp [progressOk]
+  | cons e l ih =>
+    simp only [List.cons_append]
+    unfold progressOk at h ⊢
+    by_cases hp : (e.typ == EvType.progress) = true
+    · have hnd : isData e = false := by
+        have : e.typ = EvType.progress := by simpa using hp
+        simp [isData, this]
+      simp only [hp, if_true, Bool.and_eq_true] at h ⊢
+      refine ⟨h.1, ih hi h.2 ?_⟩
+      intro hxp; have := hx hxp
+      simpa [accAfter, hnd] using this
+    · simp only [hp, Bool.false_eq_true, if_false] at h ⊢
+      by_cases hd : isData e = true
+      · simp only [hd, if_true] at h ⊢
+        apply ih _ h
+        intro hxp; have := hx hxp
+        simpa [accAfter, hd] using this
+      · simp only [hd, Bool.false_eq_true, if_false] at h ⊢
+        apply ih _ h
+        intro hxp; have := hx hxp
+        simpa [accAfter, hd] using this
 
-theorem f23_stream :
-    (exec f23Start f23Ops).watchers.map (fun w => w.hist.map (fun e => (e.typ, e.rev))) =
-      [[(EvType.put, 1), (EvType.progress, 0)]] := by decide
+theorem accAfter_append (hi : Nat) (l : List WEv) (x : WEv) :
+    accAfter hi (l ++ [x]) = if isData x then max (accAfter hi l) x.rev else accAfter hi l := by
+  unfold accAfter; rw [List.foldl_append]; rfl
 
-theorem progress_statement_false : ¬ ProgressStatement := by
-  intro h
-  have h1 := h f23Start f23Ops ⟨rfl, rfl, rfl, rfl, rfl⟩
-  revert h1
-  decide
+/-- Per-watcher progress invariant relative to the dispatcher's counter `R`. -/
+def PQ (R : Nat) (w : Watcher) : Prop := progressOk 0 w.hist = true ∧ accAfter 0 w.hist ≤ R
 
-/-! ### F23 partial: without heartbeat ticks there are no Progress events at all -/
+/-- Events the dispatcher may hand out while its counter is `R`. -/
+def EvOk (R : Nat) (e : PEv) : Prop :=
+  (e.typ = EvType.progress → e.rev = R) ∧ (IsDataP e → e.rev ≤ R) ∧ e.typ ≠ EvType.canceled
 
-def NoProg (w : Watcher) : Prop := ∀ x ∈ w.hist, x.typ ≠ EvType.progress
+theorem pq_push (R : Nat) (w : Watcher) (x : WEv) (h : PQ R w)
+    (hx : (x.typ = EvType.progress → x.rev = R) ∧ (isData x = true → x.rev ≤ R)) :
+    progressOk 0 (w.hist ++ [x]) = true ∧ accAfter 0 (w.hist ++ [x]) ≤ R := by
+  refine ⟨?_, ?_⟩
+  · apply progressOk_push 0 w.hist x h.1
+    intro hp
+    have := hx.1 hp
+    have h2 := h.2
+    omega
+  · rw [accAfter_append]
+    by_cases hd : isData x = true
+    · have := hx.2 hd; have := h.2
+      simp [hd]; omega
+    · simp [hd]; exact h.2
 
-theorem hit_noprog (b : Nat) (e : PEv) (w : Watcher) (h : NoProg w) (he : e.typ ≠ EvType.progress) :
-    NoProg (hit b e w) := by
+theorem hit_pq (R b : Nat) (e : PEv) (w : Watcher) (h : PQ R w) (he : EvOk R e) : PQ R (hit b e w) := by
   rcases hit_cases b e w with ⟨_, hh⟩ | ⟨_, _, hh⟩ | ⟨_, _, hh⟩ | ⟨_, _, hh⟩ <;> rw [hh]
   · exact h
-  · intro x hx
-    have hx' : x ∈ w.hist ++ [cancelEv e.key] := hx
-    simp only [List.mem_append, List.mem_singleton] at hx'
-    rcases hx' with hx' | hx'
-    · exact h x hx'
-    · subst hx'; simp [cancelEv]
+  · exact pq_push R w (cancelEv e.key) h ⟨fun hc => by simp [cancelEv] at hc, fun hc => by simp [cancelEv, isData] at hc⟩
   · exact h
-  · intro x hx
-    have hx' : x ∈ w.hist ++ [toW w.prevKv e] := hx
-    simp only [List.mem_append, List.mem_singleton] at hx'
-    rcases hx' with hx' | hx'
-    · exact h x hx'
-    · subst hx'; exact he
+  · refine pq_push R w (toW w.prevKv e) h ⟨fun hc => he.1 hc, fun hd => ?_⟩
+    apply he.2.1
+    rw [isData_toW] at hd
+    simp only [Bool.or_eq_true, beq_iff_eq] at hd
+    exact hd
 
-theorem pass_noprog (b : Nat) (ip : Bool) (k : Key) (e : PEv) (w : Watcher) (h : NoProg w)
-    (he : e.typ ≠ EvType.progress) : NoProg (pass b ip k e w) := by
+theorem pass_pq (R b : Nat) (ip : Bool) (k : Key) (e : PEv) (w : Watcher) (h : PQ R w) (he : EvOk R e) :
+    PQ R (pass b ip k e w) := by
   unfold pass; split
-  · exact hit_noprog b e w h he
+  · exact hit_pq R b e w h he
   · exact h
 
-theorem perW_noprog (b : Nat) (e : PEv) (w : Watcher) (h : NoProg w) (he : e.typ ≠ EvType.progress) :
-    NoProg (perW b e w) := by
+theorem perW_pq (R b : Nat) (e : PEv) (w : Watcher) (h : PQ R w) (he : EvOk R e) : PQ R (perW b e w) := by
   unfold perW
-  have gen : ∀ (l : List Key) (w : Watcher), NoProg w → NoProg (l.foldl (fun w p => pass b true p e w) w) := by
+  have gen : ∀ (l : List Key) (w : Watcher), PQ R w → PQ R (l.foldl (fun w p => pass b true p e w) w) := by
     intro l
     induction l with
     | nil => intro w hw; exact hw
-    | cons p l ih => intro w hw; exact ih _ (pass_noprog b true p e w hw he)
-  exact gen _ _ (pass_noprog b false e.key e w h he)
+    | cons p l ih => intro w hw; exact ih _ (pass_pq R b true p e w hw he)
+  exact gen _ _ (pass_pq R b false e.key e w h he)
 
-/-- No tick has made the heartbeat due, no watcher has been sent a Progress event, ring holds data only. -/
-structure PInv (s : St) : Prop where
-  due : s.hbDue = false
-  ws : ∀ w ∈ s.watchers, NoProg w
+theorem cancelOne_pq (R : Nat) (w : Watcher) (h : PQ R w) : PQ R (cancelOne w) := by
+  unfold cancelOne
+  split
+  · split
+    · exact h
+    · exact pq_push R w (cancelEv w.key) h ⟨fun hc => by simp [cancelEv] at hc, fun hc => by simp [cancelEv, isData] at hc⟩
+  · exact h
+
+structure QInv (s : St) : Prop where
+  ws : ∀ w ∈ s.watchers, PQ s.progressRev w
   data : ∀ e ∈ s.sent, IsDataP e
 
-theorem pinv_step (s : St) (op : Op) (h : PInv s) (hop : op ≠ Op.tick) : PInv (step s op) := by
+theorem qinv_dispatchToMap (s : St) (ip : Bool) (k : Key) (e : PEv) (h : QInv s) (he : EvOk s.progressRev e) :
+    QInv (dispatchToMap s ip k e) := by
+  refine ⟨?_, h.data⟩
+  intro w hw
+  simp only [dispatchToMap, List.mem_map] at hw
+  obtain ⟨w0, hw0, rfl⟩ := hw
+  exact pass_pq _ _ _ _ _ _ (h.ws w0 hw0) he
+
+theorem qinv_foldl (ip : Bool) (l : List Key) (s : St) (e : PEv) (h : QInv s) (he : EvOk s.progressRev e) :
+    QInv (l.foldl (fun s k => dispatchToMap s ip k e) s) := by
+  induction l generalizing s with
+  | nil => exact h
+  | cons k l ih => exact ih _ (qinv_dispatchToMap s ip k e h he) he
+
+theorem qinv_step (s : St) (op : Op) (h : QInv s) : QInv (step s op) := by
   cases op with
-  | tick => exact absurd rfl hop
   | apply c =>
-    refine ⟨h.due, h.ws, ?_⟩
+    refine ⟨h.ws, ?_⟩
     intro e he
     have he' : e ∈ s.sent ++ eventsOf s.nextIndex c (applyAll s.kv c).2
         (if prevKvCount s > 0 then some (readPrev s.kv c) else none) := he
@@ -792,64 +875,78 @@ theorem pinv_step (s : St) (op : Op) (h : PInv s) (hop : op ≠ Op.tick) : PInv 
     · exact h.data e he'
     · exact eventsOf_go_data _ _ _ _ _ e he'
   | reg k p v =>
-    show PInv (register s k p v)
+    show QInv (register s k p v)
     unfold register
     split
-    · exact ⟨h.due, h.ws, h.data⟩
+    · exact ⟨h.ws, h.data⟩
     · split
-      · exact ⟨h.due, h.ws, h.data⟩
-      · refine ⟨h.due, ?_, h.data⟩
+      · exact ⟨h.ws, h.data⟩
+      · refine ⟨?_, h.data⟩
         intro w hw
         simp only [List.mem_append, List.mem_singleton] at hw
         rcases hw with hw | hw
         · exact h.ws w hw
-        · subst hw; intro x hx; simp at hx
+        · subst hw; exact ⟨rfl, Nat.zero_le _⟩
   | dstep =>
-    show PInv ((dstep s).getD s)
+    show QInv ((dstep s).getD s)
     cases hd : dstep s with
     | none => exact h
     | some s' =>
-      show PInv s'
+      show QInv s'
       unfold dstep at hd
       split at hd
       · cases hd
         unfold unregisterId
         split
-        · refine ⟨h.due, ?_, h.data⟩
+        · refine ⟨?_, h.data⟩
           intro w hw
           simp only [List.mem_map] at hw
           obtain ⟨w0, hw0, rfl⟩ := hw
           split
           · exact h.ws w0 hw0
           · exact h.ws w0 hw0
-        · exact ⟨h.due, h.ws, h.data⟩
+        · exact ⟨h.ws, h.data⟩
       · split at hd
         · split at hd
-          · cases hd; exact ⟨h.due, h.ws, h.data⟩
+          · cases hd
+            refine ⟨?_, h.data⟩
+            intro w hw
+            simp only [cancelAll, List.mem_map] at hw
+            obtain ⟨w0, hw0, rfl⟩ := hw
+            exact cancelOne_pq _ _ (h.ws w0 hw0)
           · split at hd
             · rename_i e he
               cases hd
               have hde : IsDataP e := h.data e (List.mem_of_getElem? he)
-              have hne : e.typ ≠ EvType.progress := by
-                rcases hde with hde | hde <;> rw [hde] <;> decide
-              obtain ⟨hw, _⟩ := dispatchEvent_eq { s with cursor := s.cursor + 1 } e
-              refine ⟨?_, ?_, ?_⟩
-              · rw [dispatchEvent_frame St.hbDue (fun _ _ _ _ => rfl)]; exact h.due
-              · rw [hw]
+              have hev : EvOk (max s.progressRev e.rev) e := by
+                refine ⟨?_, fun _ => Nat.le_max_right _ _, ?_⟩
+                · intro hp; rcases hde with hde | hde <;> rw [hde] at hp <;> cases hp
+                · rcases hde with hde | hde <;> rw [hde] <;> decide
+              obtain ⟨hw, _⟩ := dispatchEvent_eq
+                { s with cursor := s.cursor + 1, progressRev := max s.progressRev e.rev } e
+              refine ⟨?_, ?_⟩
+              · rw [hw, dispatchEvent_frame St.progressRev (fun _ _ _ _ => rfl)]
                 intro w hw'
                 simp only [List.mem_map] at hw'
                 obtain ⟨w0, hw0, rfl⟩ := hw'
-                exact perW_noprog _ _ _ (h.ws w0 hw0) hne
+                have h0 := h.ws w0 hw0
+                exact perW_pq _ _ _ _ ⟨h0.1, Nat.le_trans h0.2 (Nat.le_max_left _ _)⟩ hev
               · rw [dispatchEvent_frame St.sent (fun _ _ _ _ => rfl)]; exact h.data
             · cases hd
         · split at hd
-          · rename_i hc
-            simp only [Bool.and_eq_true] at hc
-            rw [h.due] at hc
-            exact absurd hc.2 (by decide)
           · cases hd
+            unfold broadcastProgress
+            have hev : EvOk s.progressRev (progressEv { s with hbDue := false }) := by
+              refine ⟨fun _ => rfl, ?_, by decide⟩
+              intro hd
+              have hd' : EvType.progress = EvType.put ∨ EvType.progress = EvType.delete := hd
+              exact absurd hd' (by decide)
+            exact qinv_foldl true _ _ _ (qinv_foldl false _ _ _ ⟨h.ws, h.data⟩ hev)
+              (by rw [foldl_frame St.progressRev (fun _ _ _ _ => rfl)]; exact hev)
+          · cases hd
+  | tick => exact ⟨h.ws, h.data⟩
   | take i n =>
-    refine ⟨h.due, ?_, h.data⟩
+    refine ⟨?_, h.data⟩
     intro w hw
     simp only [step, Watch.take, List.mem_map] at hw
     obtain ⟨w0, hw0, rfl⟩ := hw
@@ -857,10 +954,10 @@ theorem pinv_step (s : St) (op : Op) (h : PInv s) (hop : op ≠ Op.tick) : PInv 
     · exact h.ws w0 hw0
     · exact h.ws w0 hw0
   | dropHandle i =>
-    show PInv (dropHandle s i)
+    show QInv (dropHandle s i)
     unfold dropHandle
     split
-    · refine ⟨h.due, ?_, h.data⟩
+    · refine ⟨?_, h.data⟩
       intro w hw
       simp only [List.mem_map] at hw
       obtain ⟨w0, hw0, rfl⟩ := hw
@@ -869,7 +966,7 @@ theorem pinv_step (s : St) (op : Op) (h : PInv s) (hop : op ≠ Op.tick) : PInv 
       · exact h.ws w0 hw0
     · exact h
   | dropReceiver i =>
-    refine ⟨h.due, ?_, h.data⟩
+    refine ⟨?_, h.data⟩
     intro w hw
     simp only [step, dropReceiver, List.mem_map] at hw
     obtain ⟨w0, hw0, rfl⟩ := hw
@@ -877,38 +974,35 @@ theorem pinv_step (s : St) (op : Op) (h : PInv s) (hop : op ≠ Op.tick) : PInv 
     · exact h.ws w0 hw0
     · exact h.ws w0 hw0
 
-theorem progressOk_noprog (hi : Nat) (l : List WEv) (h : ∀ x ∈ l, x.typ ≠ EvType.progress) :
-    progressOk hi l = true := by
-  induction l generalizing hi with
-  | nil => rfl
-  | cons e l ih =>
-    unfold progressOk
-    have he : (e.typ == EvType.progress) = false := by
-      have := h e (by simp)
-      simpa using this
-    simp only [he, Bool.false_eq_true, if_false]
-    split
-    · exact ih _ (fun x hx => h x (List.mem_cons_of_mem _ hx))
-    · exact ih _ (fun x hx => h x (List.mem_cons_of_mem _ hx))
-
-/-- **F23 partial:** in schedules where the heartbeat never fires, no watcher is ever sent a Progress
-    event, so the Progress-revision requirement holds vacuously. (With ticks it is false: `progress_statement_false`.) -/
-theorem progress_partial (s0 : St) (ops : List Op) (h0 : Init s0) (hdue : s0.hbDue = false)
-    (hnt : ∀ op ∈ ops, op ≠ Op.tick) : ProgressOkAll (exec s0 ops) := by
-  have gen : ∀ (ops : List Op) (s : St), PInv s → (∀ op ∈ ops, op ≠ Op.tick) → PInv (exec s ops) := by
+/-- **Progress revisions, full strength (after the fix of F23):** in every schedule, a Progress event never
+    carries a revision older than a put/delete the same watcher was sent before it. -/
+theorem progress_statement : ProgressStatement := by
+  intro s0 ops h0
+  have gen : ∀ (ops : List Op) (s : St), QInv s → QInv (exec s ops) := by
     intro ops
     induction ops with
-    | nil => intro s h _; exact h
-    | cons op ops ih =>
-      intro s h hn
-      exact ih (step s op) (pinv_step s op h (hn op (by simp))) (fun o ho => hn o (List.mem_cons_of_mem _ ho))
-  have hp0 : PInv s0 := by
-    refine ⟨hdue, ?_, ?_⟩
+    | nil => intro s h; exact h
+    | cons op ops ih => intro s h; exact ih (step s op) (qinv_step s op h)
+  have hq0 : QInv s0 := by
+    refine ⟨?_, ?_⟩
     · rw [h0.watchers]; intro w hw; cases hw
     · rw [h0.sent]; intro e he; cases he
-  have hp := gen ops s0 hp0 hnt
   intro w hw
-  exact progressOk_noprog 0 w.hist (hp.ws w hw)
+  exact ((gen ops s0 hq0).ws w hw).1
+
+/-- F23 regression: with the counter frozen at its start-up value (the code before the fix) a put at
+    revision 1 is followed by Progress with revision 0. -/
+theorem f23_regression :
+    progressOk 0 [toW false { typ := .put, key := kA, value := some 7, prev := none, rev := 1 },
+                  toW false { typ := .progress, key := [], value := none, prev := none, rev := 0 }] = false := by
+  decide
+
+def f23Start : St := { bufSize := 8, queueSize := 16, maxWatchers := 16, hbEnabled := true, progressRev := 0 }
+def f23Ops : List Op := [.reg kA false false, .apply [.put kA 7], .dstep, .tick, .dstep]
+
+theorem f23_fixed :
+    (exec f23Start f23Ops).watchers.map (fun w => w.hist.map (fun e => (e.typ, e.rev))) =
+      [[(EvType.put, 1), (EvType.progress, 1)]] := by decide
 
 /-! ### Events: one per successful mutation, revision = entry index, strictly increasing -/
 
@@ -1152,18 +1246,18 @@ theorem cancelLast_of (l : List WEv) (h : ∀ e ∈ l.dropLast, e.typ ≠ EvType
     have := h e (by rw [List.dropLast_concat]; exact he')
     simpa using this
 
-/-- **The check's monitor holds on the model.** In every lag-free schedule, for every watcher, the stream
+/-- **The check's monitor holds on the model.** In every schedule, for every watcher, the stream
     its consumer has received (prev values erased, as the monitor does) satisfies `streamOk` against the
     complete list of broadcast events, with any `must ≥` the ring position at registration, and with
     `complete` claimed only when the consumer kept its handle, has drained its channel and the dispatcher
     has caught up. -/
-theorem monitor_holds_on_model (s0 : St) (ops : List Op) (h0 : Init s0) (hnolag : (exec s0 ops).lagged = 0)
+theorem monitor_holds_on_model (s0 : St) (ops : List Op) (h0 : Init s0)
     (w : Watcher) (hw : w ∈ (exec s0 ops).watchers) (must : Nat) (complete : Bool)
     (hmust : w.regPos ≤ must)
     (hcomplete : complete = true →
       w.closed = false ∧ w.chan = [] ∧ (exec s0 ops).cursor = (exec s0 ops).sent.length) :
     streamOk w.isPrefix false w.key (exec s0 ops).sent must complete (w.got.map erasePrev) = true := by
-  have hs := sinv_exec s0 ops (sinv_init s0 h0) hnolag
+  have hs := sinv_exec s0 ops (sinv_init s0 h0)
   have h := hs.ws w hw
   generalize exec s0 ops = s at hs h hcomplete
   -- chain of prefixes
